@@ -115,24 +115,24 @@ theorem decodeArray_val (t : STy) (pieces : List Wire) (hne : pieces ≠ []) (x 
   | cons w r => simp [h]
 
 /-- the code's serialisation of a default is the spec's -/
-theorem encodeDefault_eq_spec (p : Param) (d : PVal) (h : d ≠ .list [] ∨ encodeDefault p d = []) :
-    encodeDefault p d = specEncode p d := by
+theorem encodeDefault_eq_spec (p : Param) (d : PVal) : encodeDefault p d = specEncode p d := by
   cases d with
   | sc a => unfold encodeDefault specEncode; cases p.loc <;> rfl
-  | list as =>
-    cases as with
-    | cons a r => unfold encodeDefault specEncode; cases p.loc <;> rfl
-    | nil =>
-      rcases h with h | h
-      · exact absurd rfl h
-      · rw [h]; unfold specEncode; cases p.loc <;> rfl
+  | list as => cases as <;> (unfold encodeDefault specEncode; cases p.loc <;> rfl)
 
 theorem specEncode_path (p : Param) (d : PVal) (h : p.loc = .path) : specEncode p d = [] := by
   unfold specEncode; simp [h]
 
-theorem emptyArrayWritten_congr (skip : Bool) (p : Param) (st st' : Store) (h : st.get p.key = st'.get p.key) :
-    EmptyArrayWritten skip p st = EmptyArrayWritten skip p st' := by
-  unfold EmptyArrayWritten; rw [h]
+/-- what is written for a default is never the empty text -/
+theorem encodeDefault_ne_empty (p : Param) (d : PVal) : encodeDefault p d ≠ [.empty] := by
+  cases d with
+  | sc a => unfold encodeDefault; cases p.loc <;> simp
+  | list as =>
+    cases as with
+    | nil => unfold encodeDefault; cases p.loc <;> simp
+    | cons a r =>
+      unfold encodeDefault
+      cases p.loc <;> cases r <;> simp [mkCsv] <;> split <;> simp
 
 /-- the default the "Set default value" block applies, if it runs -/
 def applied (skip : Bool) (p : Param) (raw : Option (List Wire)) : Option PVal :=
@@ -263,32 +263,33 @@ theorem decode_written_valid (p : Param) (d : PVal) (hv : dfltValid p.ty d = tru
         cases hb : (decide (p.loc = Loc.cookie) && p.explode) with
         | false => rfl
         | true => unfold decode at hdec; simp [hp, hb] at hdec
+      obtain ⟨a0, r0, rfl⟩ : ∃ a0 r0, as = a0 :: r0 := by
+        cases as with
+        | nil => exfalso; apply h1; unfold encodeDefault; cases p.loc <;> rfl
+        | cons a0 r0 => exact ⟨a0, r0, rfl⟩
       cases hl : p.loc with
       | path => exfalso; apply h1; unfold encodeDefault; simp [hl]
       | header =>
-        have he : encodeDefault p (.list as) = [mkCsv as] := by unfold encodeDefault; simp [hl]
+        have he : encodeDefault p (.list (a0 :: r0)) = [mkCsv (a0 :: r0)] := by unfold encodeDefault; simp [hl]
         rw [he] at h2 ⊢
-        exact decode_csv p t as x hp hc (by simp [hl]) (by intro hm; apply h2; rw [hm]) hx
+        exact decode_csv p t (a0 :: r0) x hp hc (by simp [hl]) (by intro hm; apply h2; rw [hm]) hx
       | cookie =>
-        have he : encodeDefault p (.list as) = [mkCsv as] := by unfold encodeDefault; simp [hl]
+        have he : encodeDefault p (.list (a0 :: r0)) = [mkCsv (a0 :: r0)] := by unfold encodeDefault; simp [hl]
         rw [he] at h2 ⊢
-        exact decode_csv p t as x hp hc (by simp [hl]) (by intro hm; apply h2; rw [hm]) hx
+        exact decode_csv p t (a0 :: r0) x hp hc (by simp [hl]) (by intro hm; apply h2; rw [hm]) hx
       | query =>
         cases hx2 : p.explode with
         | true =>
-          have he : encodeDefault p (.list as) = as.map .lit := by unfold encodeDefault; simp [hl, hx2]
+          have he : encodeDefault p (.list (a0 :: r0)) = (a0 :: r0).map .lit := by unfold encodeDefault; simp [hl, hx2]
           rw [he] at h1 ⊢
           unfold decode
           simp only [hp, hc, Bool.false_eq_true, ↓reduceIte]
-          cases has : as.map Wire.lit with
-          | nil => exact absurd has h1
-          | cons w r =>
-            simp only [hl, hx2, decide_true, Bool.and_self, ↓reduceIte]
-            rw [← has]; exact decodeArray_val t _ (by rw [has]; simp) x hx
+          simp only [List.map_cons, hl, hx2, decide_true, Bool.and_self, ↓reduceIte]
+          exact decodeArray_val t _ (by simp) x (by simpa using hx)
         | false =>
-          have he : encodeDefault p (.list as) = [mkCsv as] := by unfold encodeDefault; simp [hl, hx2]
+          have he : encodeDefault p (.list (a0 :: r0)) = [mkCsv (a0 :: r0)] := by unfold encodeDefault; simp [hl, hx2]
           rw [he] at h2 ⊢
-          exact decode_csv p t as x hp hc (by simp [hx2]) (by intro hm; apply h2; rw [hm]) hx
+          exact decode_csv p t (a0 :: r0) x hp hc (by simp [hx2]) (by intro hm; apply h2; rw [hm]) hx
 
 /-! ### several parameters -/
 
